@@ -1,6 +1,8 @@
 package props
 
 import (
+	"bytes"
+
 	"codeberg.org/TauCeti/mangle-go/ast"
 	"codeberg.org/TauCeti/mangle-go/factstore"
 )
@@ -25,14 +27,14 @@ func newBase(kind string) factstore.FactStoreWithRemove {
 // hashKeyed reports whether the kind identifies atoms by Atom.Hash() alone.
 func hashKeyed(kind string) bool {
 	switch kind {
-	case "multiarray", "concurrent-multiarray":
+	case "multiarray", "concurrent-multiarray", "merged-file", "merged-file-snapshot", "saved-partial-result":
 		return false
 	}
 	return true
 }
 
 // engineStoreKinds are the store configurations the evaluation checks run on.
-var engineStoreKinds = []string{"simple", "indexed", "multi", "multiarray", "concurrent-simple", "concurrent-multiarray", "merged", "teeing"}
+var engineStoreKinds = []string{"simple", "indexed", "multi", "multiarray", "concurrent-simple", "concurrent-multiarray", "merged", "teeing", "merged-file", "merged-file-snapshot"}
 
 // newEngineStore builds a writable store of the kind, pre-loaded with the base
 // facts. For merged/teeing half of the base facts live in the read-only layer.
@@ -64,6 +66,22 @@ func newEngineStore(kind string, base []ast.Atom) factstore.FactStore {
 			}
 		}
 		return factstore.NewMergedStore([]factstore.ReadOnlyFactStore{ro}, w)
+	case "merged-file", "merged-file-snapshot":
+		// (snapshot: the caller adds part of the facts an earlier evaluation derived, as a saved result would hold them)
+		// the base facts live in a simple-column file that is read lazily (SimpleColumnStore) below a writable layer
+		src := factstore.NewMultiIndexedArrayInMemoryStore()
+		for _, a := range base {
+			src.Add(a)
+		}
+		var buf bytes.Buffer
+		if err := (factstore.SimpleColumn{Deterministic: true}).WriteTo(src, &buf); err != nil {
+			panic("merged-file: write: " + err.Error())
+		}
+		ro, err := factstore.NewSimpleColumnStoreFromBytes(buf.Bytes())
+		if err != nil {
+			panic("merged-file: open: " + err.Error())
+		}
+		return factstore.NewMergedStore([]factstore.ReadOnlyFactStore{ro}, factstore.NewMultiIndexedArrayInMemoryStore())
 	case "teeing":
 		b := factstore.NewMultiIndexedArrayInMemoryStore()
 		for i, a := range base {
